@@ -438,6 +438,7 @@ def run_message(tree, handlers, msg, cap=None):
     buf = Cell(mk_buf(cap), "response")
     st.extra["buf"] = buf
     args = [RefV(root), M._mkslice(msg, 0), RefV(Cell(AggV("msg::device", {}), "device"), (), True), RefV(Cell(AggV("msg::context", {0: K(False)}), "context"), (), True), RefV(buf, (), True)]
+    eng.step_budget, eng._steps_used, eng._forks_used = 16000, 0, 0
     try:
         rs = eng.run(body, args, st)
     except (fdai.TooManyPaths, RecursionError) as e:
@@ -999,6 +1000,7 @@ def table(name, tier):
     if key in _C:
         return _C[key]
     rows = []
+    n_undecided = 0
     for row in CORPORA[name](tier):
         tree, hs, us, cap, trail = row[:5]
         post = row[5] if len(row) > 5 else []
@@ -1006,7 +1008,12 @@ def table(name, tier):
         exp = ref_run_raw(tree, hs, us, cap, trail)
         if post and exp["result"] == "Ok":
             exp = ref_run_raw(tree, hs, list(us) + list(post), cap, trail)
+        if n_undecided > 3:
+            rows.append((msg, cap, "undecided: not evaluated (the first messages of this table are undecided)"))
+            continue
         got = run_message(tree, hs, msg, cap)
+        if not isinstance(got, dict):
+            n_undecided += 1
         if len(us) == 1 and isinstance(us[0], Raw) and us[0].call is None and isinstance(us[0].error, tuple) and us[0].error[0] == "class":
             # only the verdict matters: a command error, reported once; which handlers ran before it is not prescribed
             if isinstance(got, dict):
@@ -1059,6 +1066,7 @@ def tokenize(msg, limit=80):
     """-> list of token descriptions | ("undecided", why)"""
     eng = engine()
     u = eng.unit
+    eng.step_budget, eng._steps_used, eng._forks_used = 16000, 0, 0
     try:
         rs = eng.run(u.body("scpi::parser::tokenizer::Tokenizer::new"), [M._mkslice(msg, 0)])
     except (fdai.TooManyPaths, RecursionError) as e:
@@ -1095,6 +1103,7 @@ def token_table(tier):
         return _C[key]
     rows = []
     seen = set()
+    n_und = 0
     for name in ("params", "framing", "resolve"):
         for i, row in enumerate(CORPORA[name](tier)):
             us, trail = row[2], row[4]
@@ -1107,7 +1116,12 @@ def token_table(tier):
                 continue
             seen.add(msg)
             exp = expected_tokens(us, trail)
+            if n_und > 3:
+                rows.append((msg, "undecided: not evaluated (the first messages are undecided)"))
+                continue
             got = tokenize(msg)
+            if isinstance(got, tuple):
+                n_und += 1
             ok = isinstance(got, list) and got == exp
             rows.append((msg, None if ok else ("undecided: %s" % (got[1],) if isinstance(got, tuple) else "lexed as %s, expected %s" % (_fmt_toks(got), _fmt_toks(exp)))))
     _C[key] = rows
